@@ -2,6 +2,7 @@ INIT Init
 NEXT Next
 CONSTANTS
   NPaths = 5
+  Stale = {1, 2}
   Ks = {1,2,3,4}
   MHs = {0,1,2,4}
   PEs = {1,2,3,5}
